@@ -159,7 +159,7 @@ def build(ctx):
         plan.append(("17", "checked", [i for i in allinst if i[0] in q]))
         plan.append(("20", "checked", [i for i in allinst if i[0] in ("uint16be_int8", "uint32le_char")]))
     else:
-        for std in ("11", "14", "17", "20", "2b"):
+        for std in ("11", "14", "17", "20"):
             plan.append((std, "checked", allinst))
         plan.append(("17", "unchecked", allinst))
     for std, mode, sel in plan:
